@@ -197,9 +197,10 @@ class MessageDispatcher(ClientMessageSink):
     open_latency = open_time - start_time
 
     if timeout:
-      # Calculate the deadline for this method call.
-      # Reduce it by the time it took for the open() to complete.
-      deadline = start_time + timeout - open_latency
+      # Calculate the deadline for this method call.  The timeout runs from
+      # the moment the call was issued, so the time it took for the open() to
+      # complete is already accounted for.
+      deadline = start_time + timeout
     else:
       deadline = None
 
